@@ -603,6 +603,11 @@ void sim_loop(void) {
 				t2 = sim_timers_next(); if (t2 < t) t = t2;
 				t2 = sim_children_next(); if (t2 < t) t = t2;
 				for (int i = 0; i < S.nfb; i++) if (S.fb[i].st == FB_BLOCKED && S.fb[i].wake_at && S.fb[i].wake_at < t) t = S.fb[i].wake_at;
+				if (t != UINT64_MAX && t > S.now && S.spin_real_steps && S.step_ns && (t - S.now) / S.step_ns <= S.spin_real_steps) {
+					/* plan asks for real spinning: every trip round the caller's retry loop is executed and costs step_ns,
+					 * so that a loop which gives up after N tries gives up here too (sched spinreal=<steps>) */
+					sim_probe("sched.spin_for_real");
+				} else
 				if (t != UINT64_MAX && t > S.now) {
 					/* the spinners burnt time up to the next event; now they get to look again (one round) */
 					S.now = t; sim_probe("sched.spin_time_jump");
@@ -803,6 +808,7 @@ void sim_begin(const plan_t *plan) {
 	if (S.pct_d > 8) S.pct_d = 8;
 	S.budget = (uint64_t)item_get(&plan->sched, "budget", 60000);
 	S.step_ns = (uint64_t)item_get(&plan->sched, "stepns", 1000);
+	S.spin_real_steps = (uint64_t)item_get(&plan->sched, "spinreal", 0);
 	S.pct_low = 999u;
 	{
 		uint64_t k = (uint64_t)item_get(&plan->sched, "k", 1500);
